@@ -10,11 +10,15 @@
    record level for PROV-JSON: the object written for a record is read by JsonSpec.read_record
    as that record (kind, identifier URI, every value of every attribute, in order), and at
    container level for PROV-JSON: JsonSpec.read_container of what the writer emits for a
-   container is the list of its records' contents in the grouped order (C10_json_container).  The
-   document level (bundles) and PROV-XML above value level (JsonSpec.read (encode_doc d) = content d) is stated and decided per run
+   container is the list of its records' contents in the grouped order (C10_json_container).  Record
+   level for PROV-XML (C10_xml_record): the element the model of the writer builds for a record — tied to
+   serialize_bundle by a per-record element correspondence on every run — is read by XmlSpec.read_record as the
+   record: its children are in schema order, each is read as its pair, a subtype element name gives back the
+   prov:type it stands for.  The
+   document level (bundles) of both formats (JsonSpec.read (encode_doc d) = content d) is stated and decided per run
    by executing the extracted readers on the implementation's real output. *)
 From Coq Require Import String List Bool ZArith.
-From Prov Require Import Str Sexp Tables Spec TablesOK Nsm NsmProofs Values Record World Jtree Json JsonProofs JsonSpec Xml XmlProofs XmlSpec SpecProofs JsonRecProofs SpecRecProofs JsonContProofs SpecContProofs.
+From Prov Require Import Str Sexp Tables Spec TablesOK Nsm NsmProofs Values Record World Jtree Json JsonProofs JsonSpec Xml XmlProofs XmlSpec SpecProofs JsonRecProofs SpecRecProofs JsonContProofs SpecContProofs XmlLabel XmlRec XmlRecProofs.
 Import ListNotations.
 Open Scope string_scope.
 
@@ -166,6 +170,45 @@ Print Assumptions C10_json_container.
 Example C10_json_container_applies :
   read_container [] builtin_ptable (encode_container y_b) = Some (x_t, map content_rec (grouped (brecs y_b))).
 Proof. exact spec_json_container_applies. Qed.
+
+(* ---- record level, PROV-XML.  xml_record: element name (record_label), children ordered as sorted_attributes
+   orders them, one child per pair as xml_emit writes it.  PairXml: read_child reads the child back as the pair
+   (pairxml_value / pairxml_ref / pairxml_time derive it from the value-level theorems above).  canon_prov: names of
+   the PROV namespace are written with that namespace and their local name. *)
+Theorem C10_xml_children_in_schema_order : forall fl scope kind pairs,
+  NoDup (formal_attrs kind ++ five) -> Forall (fun kv => canon_prov (fst kv)) pairs ->
+  schema_order (formal_attrs kind) (map (xml_child fl scope) (sorted_pairs kind pairs)) = true.
+Proof. exact children_ordered. Qed.
+Print Assumptions C10_xml_children_in_schema_order.
+
+Theorem C10_xml_record : forall ft fl scope kind ident pairs label rest x ic,
+  lookup kind prov_base_cls = Some kind -> kind <> "Membership" ->
+  NoDup (formal_attrs kind ++ five) ->
+  record_label kind pairs = Some (label, rest) ->
+  xml_record fl scope kind ident pairs = Some x ->
+  Forall (fun kv => canon_prov (fst kv)) rest ->
+  Forall (PairXml ft fl scope (formal_attrs kind)) rest ->
+  match ident with
+  | Some q => resolve_uri scope (qn_str q) = Some (qn_uri q) /\ ic = A (qn_uri q)
+  | None => ic = A "none"
+  end ->
+  exists sub,
+    XmlSpec.kind_by_name label = Some (kind, formal_attrs kind, sub) /\
+    (sub = None /\ rest = pairs \/ exists l, sub = Some l /\ derive_label kind pairs = Some (l, rest)) /\
+    XmlSpec.read_record ft x
+    = Some [L [A "rec"; A (spec_prov_uri ++ kind); ic;
+               L (map pair_content (sorted_pairs kind rest) ++ sub_content sub)]].
+Proof. exact xml_record_read. Qed.
+Print Assumptions C10_xml_record.
+
+Example C10_xml_record_applies :
+  exists x, xml_record false w_scope "Agent" (Some (w_q "g")) w_pairs = Some x /\
+    XmlSpec.read_record [] x
+    = Some [L [A "rec"; A (spec_prov_uri ++ "Agent"); A "http://e/g";
+               L [L [A (spec_prov_uri ++ "label"); L [A "str"; A "lab"]];
+                  L [A "http://e/k"; L [A "int"; sx_Z 5]];
+                  L [A (spec_prov_uri ++ "type"); L [A "qn"; A (spec_prov_uri ++ "Person")]]]]].
+Proof. exact xml_record_read_applies. Qed.
 
 Example C10_formals_covered :
   forallb (fun k => forallb (fun l =>
